@@ -662,6 +662,7 @@ class CellsImpl(*_cells_impl_base):
 
         if base:
             self.is_cached = base.is_cached
+            self.allow_none = base.allow_none
         else:
             self.is_cached = is_cached
 
